@@ -182,6 +182,8 @@ func Main(args []string) error {
 		return runInRange(w, *seed, *n)
 	case "findnodes":
 		return runFindNodes(w, cases, *seed, *n, *workers)
+	case "pipeline":
+		return runPipeline(w, *out, *seed, *n, *workers, *child)
 	case "permits":
 		return runPermits(w, *out, *seed, *n, *workers, *slow, *child)
 	case "offer":
